@@ -1,2 +1,49 @@
-(* C07 — property theorems only. *)
+(* C07 — property theorems only: each closed by [exact], each followed by Print Assumptions.
+   [run st tid step s0 sched] executes the schedule [sched] (ANY list of thread ids: a thread that is not
+   enabled when scheduled does nothing) from s0.  Threads: TC b = consumer goroutine (b = the select case it
+   picks), TU i = user thread i, TTick = the ticker.  All statements hold for every queue capacity, every
+   bufio size, every family of user programs and every schedule unless a premise says otherwise. *)
 From Dastard Require Import Common.ZX C07.Conc C07.Model C07.Spec C07.Proofs.
+
+(* At every moment the logical stream  file ++ (bytes in the consumer's hands: parked write, rest of the
+   chunk, bufio buffer) ++ queued chunks  is the concatenation of the accepted Writes in acceptance order;
+   chunk-wise, the queue is a FIFO. *)
+Theorem fifo_order :
+  forall cap bsize progs sched,
+    let s := run st tid step (init cap bsize progs) sched in
+    stream s = concat (accepted (log s)) /\
+    accepted (log s) = dequeued (log s) ++ q s /\
+    concat (dequeued (log s)) = file s ++ pend s.
+Proof. exact fifo_order_reachable. Qed.
+Print Assumptions fifo_order.
+
+(* If every record program issues exactly one Write (the repaired WriteRecord / WriteHeader), the logical
+   stream consists of whole records: exactly those whose call returned nil, in the order of return.  A record
+   whose Write reported an error is not in [ok_records] and so contributes nothing. *)
+Theorem logical_stream_whole_records :
+  forall cap bsize progs sched,
+    single_write progs ->
+    let s := run st tid step (init cap bsize progs) sched in
+    stream s = concat (map (@concat Z) (ok_records (log s))).
+Proof. exact whole_records_reachable. Qed.
+Print Assumptions logical_stream_whole_records.
+
+(* ... and with the header written first (as PublishData does: CreateFile, WriteHeader, then records):
+   stream = header ++ whole accepted records. *)
+Theorem logical_stream_header_then_whole_records :
+  forall cap bsize h p0 others sched,
+    1 <= cap -> single_write ((Rec [h] :: p0) :: others) ->
+    let s := run st tid step (init cap bsize ((Rec [h] :: p0) :: others)) (TU 0 :: sched) in
+    exists recs, ok_records (log s) = [h] :: recs /\ stream s = h ++ concat (map (@concat Z) recs).
+Proof. exact header_then_records. Qed.
+Print Assumptions logical_stream_header_then_whole_records.
+
+(* Before the repair WriteRecord issued one Write per field: with room for two of the three parts the
+   third record is cut (its call returns an error, yet 20 21 are in the stream). *)
+Theorem logical_stream_whole_records_refuted_pre_fix :
+  ok_records (log old_final) = [[[1]]; [[10]; [11]; [12]]] /\
+  failed_records (log old_final) = [[[20]; [21]; [22]]; [[30]; [31]; [32]]] /\
+  stream old_final = [1; 10; 11; 12; 20; 21] /\
+  stream old_final <> concat (map (@concat Z) (ok_records (log old_final))).
+Proof. exact whole_records_refuted_pre_fix_witness. Qed.
+Print Assumptions logical_stream_whole_records_refuted_pre_fix.
